@@ -46,22 +46,24 @@ class VProblem(Problem):
     hook   : optional callable(solution) invoked at each call (must be picklable or None when pickled)
     """
 
-    def __init__(self, vtype="real", nobjs=2, nconstrs=0):
+    def __init__(self, vtype="real", nobjs=2, nconstrs=0, big=False):
+        """big=True: the same kind of problem with MORE / LARGER variables (7 reals instead of 3, ...)"""
         self.vtype = vtype
+        self.big = big
         if vtype == "real":
-            types = [Real(0.0, 1.0) for _ in range(3)]
+            types = [Real(0.0, 1.0) for _ in range(7 if big else 3)]
         elif vtype == "binary":
-            types = [Binary(5) for _ in range(3)]
+            types = [Binary(9 if big else 5) for _ in range(5 if big else 3)]
         elif vtype == "integer":
-            types = [Integer(0, 7) for _ in range(3)]
+            types = [Integer(0, 31 if big else 7) for _ in range(5 if big else 3)]
         elif vtype == "perm_int":
-            types = [Permutation(range(6))]
+            types = [Permutation(range(9 if big else 6))]
         elif vtype == "perm_str":
-            types = [Permutation(STR_ELEMENTS[:6])]
+            types = [Permutation(STR_ELEMENTS[:7 if big else 6])]
         elif vtype == "subset_int":
-            types = [Subset(range(7), 3)]
+            types = [Subset(range(11 if big else 7), 4 if big else 3)]
         elif vtype == "subset_str":
-            types = [Subset(STR_ELEMENTS, 3)]
+            types = [Subset(STR_ELEMENTS + (["hotel", "india"] if big else []), 4 if big else 3)]
         else:
             raise ValueError(vtype)
         super().__init__(len(types), nobjs, nconstrs)
@@ -77,9 +79,9 @@ class VProblem(Problem):
         if t == "real":
             return [float(v[0]), float(v[1]), float(v[2])]
         if t == "binary":
-            return [sum(1 for b in x if b) / 5.0 for x in v]
+            return [sum(1 for b in x if b) / float(len(x)) for x in v[:3]]
         if t == "integer":
-            return [x / 7.0 for x in v]
+            return [x / float(self.types[0].max_value) for x in v[:3]]
         if t in ("perm_int", "perm_str"):
             el = self.types[0].elements
             p = v[0]
@@ -129,7 +131,7 @@ def make_variator(kind, vtype):
 
 
 def build(name, vtype="real", pop=4, off=None, seed=None, constrained=False, nobjs=None, variator=None,
-          window=None, generator=None, inject=0, **extra):
+          window=None, generator=None, inject=0, big=False, capacity=6, divisions=4, **extra):
     """Construct algorithm `name`.  `seed` (if given) seeds the global `random` first.
     inject=k: the initial population starts with k already-evaluated solutions (InjectedPopulation)."""
     if seed is not None:
@@ -140,7 +142,7 @@ def build(name, vtype="real", pop=4, off=None, seed=None, constrained=False, nob
         raise ValueError("%s does not support %s variables" % (name, vtype))
     if nobjs is None:
         nobjs = 1 if name in SINGLE_OBJECTIVE else 2
-    problem = VProblem(vtype, nobjs, 1 if constrained else 0)
+    problem = VProblem(vtype, nobjs, 1 if constrained else 0, big=big)
     var, kids = make_variator(variator, vtype)
     kw = dict(extra)
     if inject and name != "CMAES":
@@ -198,11 +200,11 @@ def build(name, vtype="real", pop=4, off=None, seed=None, constrained=False, nob
     elif name == "PAES":
         if variator not in (None, "default", "mutation"):
             raise ValueError("PAES needs an arity-1 variator")
-        alg = PAES(problem, divisions=4, capacity=6, variator=var, **kw)
+        alg = PAES(problem, divisions=divisions, capacity=capacity, variator=var, **kw)
         info["pop"] = 1
         info["kids"] = 1
     elif name == "PESA2":
-        alg = PESA2(problem, population_size=pop, divisions=4, capacity=6, variator=var, **kw)
+        alg = PESA2(problem, population_size=pop, divisions=divisions, capacity=capacity, variator=var, **kw)
     elif name == "OMOPSO":
         alg = OMOPSO(problem, eps, swarm_size=pop, leader_size=max(2, pop), max_iterations=20, **kw)
         info["kids"] = 1
